@@ -12,6 +12,7 @@ import (
 	"math/big"
 	"os"
 	"strings"
+	"sync"
 
 	"github.com/ethereum/go-ethereum/common/math"
 	"github.com/ethereum/go-ethereum/crypto"
@@ -453,6 +454,63 @@ func main() {
 				}
 				out.Emit(In{Tag: "hash-commit-same-digest", Kind: "hash-commit", Bid: toJ(ob), Prims: []Prim{}, APITypes: apitypesBid(ob, true), Derived: true},
 					Obs{Outcome: "ok", Digest: hx(oc.Digest), Sig: hx(oc.Signature)})
+			}
+		}
+		// many hashes computed at the same time (a provider handles every bid stream on its own
+		// goroutine): each must be the digest of its own message
+		{
+			type pair struct {
+				b *preconfpb.Bid
+				c *preconfpb.PreConfirmation
+			}
+			var ps []pair
+			for len(ps) < 48 {
+				b, err := s.ConstructSignedBid(g.txHash(), g.amount(true), g.i63(true), g.i63(true), g.i63(true))
+				if err != nil {
+					continue
+				}
+				c, err := s.ConstructPreConfirmation(b)
+				if err != nil {
+					continue
+				}
+				ps = append(ps, pair{b, c})
+			}
+			wrongB := make([][]byte, len(ps))
+			wrongC := make([][]byte, len(ps))
+			var wmu sync.Mutex
+			var wg sync.WaitGroup
+			for w := 0; w < 16; w++ {
+				wg.Add(1)
+				go func(w int) {
+					defer wg.Done()
+					defer func() { recover() }()
+					for it := 0; it < vh.Count(300, 3000); it++ {
+						k := (w*7 + it*13) % len(ps)
+						if d, err := preconfsigner.GetBidHash(ps[k].b); err != nil || !bytes.Equal(d, ps[k].b.Digest) {
+							wmu.Lock()
+							wrongB[k] = append([]byte{}, d...)
+							wmu.Unlock()
+						}
+						if d, err := preconfsigner.GetPreConfirmationHash(ps[k].c); err != nil || !bytes.Equal(d, ps[k].c.Digest) {
+							wmu.Lock()
+							wrongC[k] = append([]byte{}, d...)
+							wmu.Unlock()
+						}
+					}
+				}(w)
+			}
+			wg.Wait()
+			for k, p := range ps {
+				ob := Obs{Outcome: "ok", Digest: hx(p.b.Digest), Sig: hx(p.b.Signature)}
+				if wrongB[k] != nil {
+					ob.Digest = hx(wrongB[k])
+				}
+				out.Emit(In{Tag: "hash-bid-concurrent", Kind: "hash-bid", Bid: toJ(p.b), Prims: []Prim{}, APITypes: apitypesBid(p.b, false), Derived: true}, ob)
+				oc := Obs{Outcome: "ok", Digest: hx(p.c.Digest), Sig: hx(p.c.Signature)}
+				if wrongC[k] != nil {
+					oc.Digest = hx(wrongC[k])
+				}
+				out.Emit(In{Tag: "hash-commit-concurrent", Kind: "hash-commit", Bid: toJ(p.b), Prims: []Prim{}, APITypes: apitypesBid(p.b, true), Derived: true}, oc)
 			}
 		}
 		// the two Solidity vectors of the repository's own TestHashing
